@@ -228,10 +228,18 @@ def run_group(res, prop, prefixes, tier, expected_panics=(), jobs=6, timeout_s=N
             "one SAT query per property, reachability witnesses (kani::cover) on",
             "harnesses": [], "checks_discharged": 0, "covers_satisfied": 0, "kani_wall_s": 0.0, "logs": [], "candidates": []}
     any_selected = False
+    split = []
     for pf, j in groups:
-        names = select(pf)
-        if not names:
-            continue
+        sel = select(pf)
+        # harnesses named *_pp_* contain a check that is expected to fail (a documented panic): they always run in
+        # per-property mode, apart from the others
+        pp = [n for n in sel if "_pp_" in n]
+        rest = [n for n in sel if "_pp_" not in n]
+        if rest:
+            split.append((rest, j, single_query))
+        if pp:
+            split.append((pp, j, False))
+    for names, j, single_query in split:
         any_selected = True
         t_budget = timeout_s if timeout_s is not None else (1800 if tier == "quick" else 7200)
         if j == 1:
